@@ -1,4 +1,86 @@
 import Driver.Proto
+import NutsModel.C07.Dispatch
+import NutsModel.Facts.C07
+open Lean Nuts.Drv Nuts.Proto Nuts.Proto.Disp
+
+/-! C07 adds the dispatcher op `disp` (NutsModel/C07/Dispatch.lean run with the REGENERATED switch table, channel capacity
+    and `allowedErrors`); every other op is the shared protocol driver's. -/
+
+namespace Nuts.Drv.C07Disp
+
+def params : Params :=
+  { cfg := Nuts.Drv.Proto.baseCfg, env := { decode := fun _ _ => .fail, order := id, dec := fun _ _ => .fail },
+    rt := routeOf Nuts.Facts.C07.dispatchTable, cap := Nuts.Facts.C07.outboxHardLimit, allowed := Nuts.Facts.C07.allowedErrors }
+
+def retName : Option HErr → String
+  | none => "nil"
+  | some .notSupported => "notsup"
+  | some .internal => "internal"
+  | some .canceled => "canceled"
+  | some (.other _) => "other"
+
+def ranges (ids : List Nat) : String :=
+  match ids with
+  | [] => "-"
+  | a :: r =>
+    let fl := fun (s p : Nat) => if s == p then toString s else s!"{s}..{p}"
+    let (parts, s, p) := r.foldl (fun (acc : List String × Nat × Nat) x =>
+      let (parts, s, p) := acc
+      if x == p + 1 then (parts, s, x) else (parts ++ [fl s p], x, x)) ([], a, a)
+    ",".intercalate (parts ++ [fl s p])
+
+def retStr (rs : List String) : String :=
+  let ks := ["nil", "notsup", "internal", "canceled", "other"].filterMap (fun c =>
+    let k := (rs.filter (· == c)).length
+    if k > 0 then some s!"{c}*{k}" else none)
+  if ks.isEmpty then "-" else "|".intercalate ks
+
+def peer : Peer := { key := 1 }
+
+def msgId : Msg → Nat
+  | .txList cid _ _ _ => cid.2
+  | _ => 0
+
+/-- k arrivals of the messages `mk i`; returns the new state and the results of `Handle` -/
+def arriveN (d : DNode) (ms : List Msg) : DNode × List String :=
+  ms.foldl (fun (acc : DNode × List String) m =>
+    let r := Handle params.allowed params.rt params.cap acc.1 peer m
+    (r.1, acc.2 ++ [retName r.2])) (d, [])
+
+def group (st : DNode × Nat × List String) (g : Json) : DNode × Nat × List String :=
+  let (d, next, out) := st
+  let gi := out.length
+  let code := match g.getArrVal? 0 with | .ok (Json.str s) => s | _ => "?"
+  let k := match g.getArrVal? 1 with | .ok j => (j.getNat?.toOption.getD 0) | _ => 0
+  match code with
+  | "L" =>
+    let (d', rs) := arriveN d ((List.range k).map (fun i => Msg.txList (0, next + i) 1 1 []))
+    (d', next + k, out ++ [s!"g{gi}=L{k}:{retStr rs}:chan={d'.chan.length}"])
+  | "U" =>
+    let (d', rs) := arriveN d (List.replicate k Msg.unsupported)
+    (d', next, out ++ [s!"g{gi}=U{k}:{retStr rs}:chan={d'.chan.length}"])
+  | "D" =>
+    -- every arrival starts a goroutine, the harness waits for it: arrive, then asyncRun 0
+    let (d', rs, ran) := (List.range k).foldl (fun (acc : DNode × List String × Nat) _ =>
+      let r := Handle params.allowed params.rt params.cap acc.1 peer Msg.diagnostics
+      let s := stepEv params r.1 (.asyncRun 0)
+      (s.1, acc.2.1 ++ [retName r.2], acc.2.2 + s.2.length)) (d, [], 0)
+    (d', next, out ++ [s!"g{gi}=D{k}:{retStr rs}:ran={ran}"])
+  | "R" =>
+    let r := run params d (List.replicate d.chan.length .listRun)
+    (r.1, next, out ++ [s!"g{gi}=R:drained:{ranges (r.2.map (fun x => msgId x.2))}:chan={r.1.chan.length}"])
+  | _ => (d, next, out ++ [s!"g{gi}=?"])
+
+def stepDisp (j : Json) : String :=
+  let (_, _, out) := (jArr j "evs").foldl group (({ node := { id := 0 } } : DNode), 0, [])
+  " ".intercalate ([s!"disp cap={params.cap}"] ++ out)
+
+end Nuts.Drv.C07Disp
+
+def step07 (d : Nuts.Drv.Proto.DSt) (j : Json) : Nuts.Drv.Proto.DSt × List String :=
+  match jStr j "op" with
+  | "disp" => (d, [Nuts.Drv.C07Disp.stepDisp j])
+  | _ => Nuts.Drv.Proto.step d j
 
 def main : IO Unit := do
-  Nuts.Drv.loop (← IO.getStdin) (← IO.getStdout) Nuts.Drv.Proto.step ({} : Nuts.Drv.Proto.DSt)
+  Nuts.Drv.loop (← IO.getStdin) (← IO.getStdout) step07 ({} : Nuts.Drv.Proto.DSt)
